@@ -112,8 +112,21 @@ class LibMap:
         if ct0.startswith("struct vf_fn"):
             if op == "()":
                 f = em.paren(em.E(a0))
-                return self.fn_call(em, n, f, args[1:])
+                return self.fn_call(em, n, f, args[1:], fnt)
             if op == "=":
+                src = skip(args[1])
+                while src.get("kind") in ("CXXConstructExpr", "CXXFunctionalCastExpr") and len(src.get("inner", [])) == 1:
+                    src = skip(src["inner"][0])
+                if src.get("kind") == "LambdaExpr":  # stored closure: its captures must outlive the block
+                    return "%s = %s" % (em.paren(em.E(a0)), em.lift_lambda(src, heap=True))
+                sct = self.mapped(em, args[1])
+                if src.get("kind") in ("CXXNullPtrLiteralExpr", "GNUNullExpr") or sct == "void*":
+                    return "%s = ((struct vf_fn){0})" % em.paren(em.E(a0))  # f = nullptr
+                if sct != "struct vf_fn":
+                    v = self.to_vf_fn(em, args[1])  # f = lambda / function pointer
+                    if v is None:
+                        return None
+                    return "%s = %s" % (em.paren(em.E(a0)), v)
                 return "%s = %s" % (em.paren(em.E(a0)), em.E(args[1]))
             return None
         if ct0.startswith("struct vf_map_") and op == "[]":
@@ -156,8 +169,23 @@ class LibMap:
                 return "%s = %s" % (em.paren(em.E(a0)), em.E(args[1]))
         return None
 
-    def fn_call(self, em, n, f, args):
-        """call of a modelled std::function value f (struct vf_fn {fn, env})"""
+    def fn_call(self, em, n, f, args, fnt=None):
+        """call of a modelled std::function / closure value f (struct vf_fn {fn, env}); the parameter passing
+        convention comes from the signature of its operator() when clang prints one, else from the arguments"""
+        avs, pcs = None, []
+        em.callflag = True  # a callback may raise
+        if fnt:
+            try:
+                params = em.fn_params_from(fnt)
+                pcs = em.param_ctypes_from(fnt)
+                ret, isref = em.ret_ctype_from(fnt)
+                if not isref and len(params) == len(args) == len(pcs):
+                    avs = em.call_args(args, params)
+            except Unsupported:
+                avs = None
+        if avs is not None:
+            cast = "%s (*)(%s)" % (ret, ", ".join(["void*"] + pcs))
+            return "((%s)%s.fn)(%s)" % (cast, f, ", ".join(["%s.env" % f] + avs))
         avs, pcs = [], []
         for a in args:
             r = em.infer_arg(a)
@@ -429,6 +457,10 @@ class LibMap:
                 if tag in em.tm.seq_insts or True:
                     em.tm.seq_insts.setdefault(tag, ct[:-1])
                     return "vf_seq_%s_%s_in(%s, %s, %s)" % (tag, name, em.E(args[0]), em.E(args[1]), em.E(args[2]))
+        if name in em.ALGO_BODIES and len(args) == 3:
+            r = em.algo_call(n, name, args)
+            if r is not None:
+                return r
         if name in ("max", "min", "lowest", "epsilon", "infinity") and not args and fnt:
             # static constants of std::numeric_limits<T> (clang prints no class for the callee: recognised by the
             # zero-argument noexcept signature returning a builtin arithmetic type)
@@ -505,6 +537,13 @@ class LibMap:
         if is_scalar(ct):
             if not args:
                 return "((%s)0)" % ct
+            act = self.mapped(em, args[0])
+            if act and act != ct and act.startswith("struct ") and ct.startswith("struct ") and \
+                    act.endswith("*") and ct.endswith("*") and not act.endswith("**") and not ct.endswith("**"):
+                # converting constructor smart_ptr<Derived> -> smart_ptr<Base>: pointer cast, valid when Base is
+                # reached through first bases only (checked at the end of the extraction, see cxx2c.translate)
+                em.upcasts.add((act[7:-1], ct[7:-1]))
+                return "((%s)%s)" % (ct, em.paren(em.E(args[0])))
             return em.E(args[0])
         if ct.startswith("struct vf_seq_"):
             tag = ct[len("struct vf_seq_"):]
@@ -570,8 +609,10 @@ class LibMap:
     def to_vf_fn(self, em, a):
         core = skip(a)
         if core.get("kind") == "LambdaExpr":
-            return self.lambda_expr(em, core)
+            return em.lift_lambda(core, heap=True)  # stored in a std::function: captures must outlive the block
         act = self.mapped(em, a)
+        if act == "struct vf_fn":
+            return em.E(a)  # closure variable
         if act == "vf_fnptr":
             return "((struct vf_fn){(vf_fnptr)%s, 0})" % em.E(a)
         return None
